@@ -99,6 +99,15 @@ def run(ctx: core.Ctx) -> int:
                 cases.append({"tid": len(cases) + 1, "files": [{"name": "sample.py", "kind": kind, "style_name": "python", "eol": "\n"}],
                               "steps": [st_, st_],
                               "label": anncases.label(file="sample.py", body=kind, history=[h[0]["b"]["name"]] * 2, flavours=[{"template": tmpl}] * 2)})
+    # a header that names a holder with non-ASCII letters, extended by an ASCII-only request in an interpreter whose locale
+    # is not UTF-8: what was declared stays declared (and the file stays UTF-8)
+    for fname, sname in (("sample.py", "python"), ("sample.c", "c"), ("sample.html", "html")):
+        for h in singles1[:4]:
+            seed = f"{ctx.seed}|loc|{len(cases)}"
+            st_ = dict(anncases.step_of(h[0]["b"], rnd, [fname], {}, must=True, pick_seed=seed), locale_c=True)
+            st_["req"] = dict(st_["req"], holders=["Plain Ascii Holder"] if st_["req"]["holders"] else [], con=["Ascii Contributor"] if st_["req"]["con"] else [])
+            cases.append({"tid": len(cases) + 1, "files": [{"name": fname, "kind": "josecode", "style_name": sname, "eol": "\n"}], "steps": [st_],
+                          "label": anncases.label(file=fname, body="josecode", history=[h[0]["b"]["name"]], flavours=[{"locale": "C"}])})
     # the same histories on files whose header always goes to FILE.license (sibling absent, or holding notices already)
     for hi, h in enumerate(hists if not q else hists[::3]):
         fname, _ = DOT_TYPES[hi % len(DOT_TYPES)]
